@@ -40,6 +40,8 @@ class Naming(object):
         return f'n{n}'
 
     def cell(self, c):
+        if self.scheme == 'quoted':
+            return f'na\u00efve c\u00e9ll_{c}'       # non-ASCII identifiers with a blank (UTF-8 longer than the text)
         return f'cell_{c}'
 
     def inv_level(self, name, levels):
